@@ -20,6 +20,7 @@ import (
 	"reflect"
 	"runtime"
 	"slices"
+	"strings"
 	"sync"
 	"testing"
 
@@ -84,6 +85,10 @@ type script struct {
 	// handler's own context (a gateway forwarding to a backend, deferred work): it is a request of its own
 	nestAt int
 	nest   func(ctx context.Context)
+	// byType: the items omit their identifiers (they rely on the ID placeholder); the handler tells them apart by the type of the
+	// payload (item i carries the request payload of routedOps[i-1]); seen: the identifiers the handlers found in the payloads
+	byType bool
+	seen   []string
 }
 
 func phToken(s string) []int {
@@ -101,13 +106,34 @@ type handler struct{}
 
 func (handler) HandleOperation(ctx context.Context, req kmip.OperationPayload) (kmip.OperationPayload, error) {
 	sc := ctx.Value(scriptKey{}).(*script)
-	pl := req.(*payloads.GetRequestPayload)
 	var rid, i int
-	if _, err := fmt.Sscanf(pl.UniqueIdentifier, "r%d.i%d", &rid, &i); err != nil {
-		panic("bad script id " + pl.UniqueIdentifier)
-	}
-	if rid != sc.uid {
-		panic("script mismatch")
+	pl := &payloads.GetRequestPayload{}
+	if sc.byType {
+		switch p := req.(type) {
+		case *payloads.GetRequestPayload:
+			i, pl.UniqueIdentifier = 1, p.UniqueIdentifier
+		case *payloads.ActivateRequestPayload:
+			i, pl.UniqueIdentifier = 2, p.UniqueIdentifier
+		case *payloads.DestroyRequestPayload:
+			i, pl.UniqueIdentifier = 3, p.UniqueIdentifier
+		case *payloads.RevokeRequestPayload:
+			i, pl.UniqueIdentifier = 4, p.UniqueIdentifier
+		case *payloads.GetAttributeListRequestPayload:
+			i, pl.UniqueIdentifier = 5, p.UniqueIdentifier
+		default:
+			panic(fmt.Sprintf("unexpected payload %T", req))
+		}
+		sc.mu.Lock()
+		sc.seen = append(sc.seen, pl.UniqueIdentifier)
+		sc.mu.Unlock()
+	} else {
+		pl = req.(*payloads.GetRequestPayload)
+		if _, err := fmt.Sscanf(pl.UniqueIdentifier, "r%d.i%d", &rid, &i); err != nil {
+			panic("bad script id " + pl.UniqueIdentifier)
+		}
+		if rid != sc.uid {
+			panic("script mismatch")
+		}
 	}
 	ph := kmipserver.IdPlaceholder(ctx)
 	sc.mu.Lock()
@@ -204,6 +230,9 @@ func buildRequest(rid int, q Req) *kmip.RequestMessage {
 		i := k + 1
 		bi := kmip.RequestBatchItem{Operation: routedOps[k%len(routedOps)]}
 		bi.RequestPayload = &payloads.GetRequestPayload{UniqueIdentifier: fmt.Sprintf("r%d.i%d", rid, i)}
+		if omitIds {
+			bi.RequestPayload = payloadByType(k)
+		}
 		if it.Out == "unrouted" {
 			bi.Operation = unroutedOp
 		}
@@ -263,6 +292,23 @@ func sameVersions(a, b []kmip.ProtocolVersion) bool {
 	return slices.Equal(a, b)
 }
 
+// omitIds: the requests are built with items that omit their identifiers, item i carrying the request payload of routedOps[i-1]
+var omitIds bool
+
+func payloadByType(k int) kmip.OperationPayload {
+	switch k % len(routedOps) {
+	case 0:
+		return &payloads.GetRequestPayload{}
+	case 1:
+		return &payloads.ActivateRequestPayload{}
+	case 2:
+		return &payloads.DestroyRequestPayload{}
+	case 3:
+		return &payloads.RevokeRequestPayload{RevocationReason: kmip.RevocationReason{RevocationReasonCode: kmip.RevocationReasonCodeUnspecified}}
+	}
+	return &payloads.GetAttributeListRequestPayload{}
+}
+
 var reasonNames = map[kmip.ResultReason]string{
 	kmip.ResultReasonItemNotFound:                 "ItemNotFound",
 	kmip.ResultReasonGeneralFailure:               "GeneralFailure",
@@ -320,15 +366,24 @@ type outcome struct {
 	Resp   []RespItem
 	Hdr    Hdr
 	Panic  string
+	Seen   []string
 }
 
+// reuseMsg: when set, execute hands this message object to the executor instead of building one (an application may send the same
+// message object again)
+var reuseMsg *kmip.RequestMessage
+
 func execute(ex *kmipserver.BatchExecutor, parent context.Context, rid, uid int, q Req, trace *vh.Writer, yield bool, nest ...func(ctx context.Context)) (out outcome) {
-	sc := &script{rid: rid, uid: uid, items: q.Items, trace: trace, yield: yield}
+	sc := &script{rid: rid, uid: uid, items: q.Items, trace: trace, yield: yield, byType: omitIds}
 	if len(nest) > 0 && len(q.Items) > 0 {
 		sc.nest, sc.nestAt = nest[0], 1+uid%len(q.Items)
 	}
 	ctx := context.WithValue(parent, scriptKey{}, sc)
-	msg := buildRequest(uid, q)
+	msg := reuseMsg
+	if msg == nil {
+		msg = buildRequest(uid, q)
+	}
+	defer func() { out.Seen = sc.seen }()
 	if trace != nil {
 		trace.Emit(map[string]any{"ev": "start", "r": rid, "u": uid, "req": q})
 	}
@@ -386,7 +441,21 @@ func TestReplay(t *testing.T) {
 	for n, c := range cases {
 		// batch semantics are a function of the request message: the same case with a live context, with a context that is already
 		// cancelled when the request arrives (the client has gone away) and with one cancelled by the first handler that runs
-		for _, ctxMode := range []string{"live", "cancelled", "cancelled-by-handler", "live+ignorable-extensions", "live+versions-with-a-gap", "live+order-false", "live+order-true"} {
+		for _, ctxMode := range []string{"live", "cancelled", "cancelled-by-handler", "live+ignorable-extensions", "live+versions-with-a-gap", "live+order-false", "live+order-true", "live+omitted-ids", "live+omitted-ids-message-sent-again"} {
+			// items that omit their identifiers (they rely on the placeholder), told apart by their payload types; and the same
+			// message object handed to the executor a second time: a request is read, not written - the second execution is a
+			// request of its own and sees nothing of the first
+			omitIds = strings.HasPrefix(ctxMode, "live+omitted-ids")
+			if omitIds && len(c.Req.Items) > len(routedOps) {
+				omitIds = false
+				continue
+			}
+			reuseMsg = nil
+			if ctxMode == "live+omitted-ids-message-sent-again" {
+				reuseMsg = buildRequest(n+1, c.Req)
+				first := execute(ex, context.Background(), n+1, 5000000+n, c.Req, nil, false)
+				_ = first
+			}
 			withIgnorableExt = ctxMode == "live+ignorable-extensions"
 			gapConfig = ctxMode == "live+versions-with-a-gap"
 			// the Batch Order Option of the header: the property orders the handlers of every batch, whatever the client asks for
@@ -443,6 +512,14 @@ func TestReplay(t *testing.T) {
 			}
 			if norm(nzr(o.Reads)) != norm(expReads) {
 				diffs = append(diffs, "reads")
+			}
+			if reuseMsg != nil {
+				for _, id := range o.Seen {
+					if t := phToken(id); len(t) == 2 && t[0] >= 5000000 {
+						diffs = append(diffs, "reads:the-payload-carries-a-placeholder-value-of-the-earlier-request:"+id)
+						break
+					}
+				}
 			}
 			if len(diffs) > 0 {
 				mism++
